@@ -32,6 +32,7 @@ type Engine struct {
 	LoadSeconds    float64
 	ginits         map[*ssa.Global]*globalInit
 	eventEff       map[*ssa.Function]*eventSet
+	sigHint        *types.Signature // signature of the function value whose assumed contract is being resolved
 }
 
 func FullName(f *ssa.Function) string {
